@@ -801,7 +801,8 @@ namespace riddle
                     error("expected ';'..");
                 return new_assignment_statement(is, i, e);
             }
-            case PLUS_ID: // an expression..
+            case LPAREN_ID: // an expression (a function call)..
+            case PLUS_ID:   // an expression..
             case MINUS_ID:
             case STAR_ID:
             case SLASH_ID:
